@@ -202,6 +202,7 @@ def handleEL [Target] (pw : Nat) (args : List String) : String :=
         match op, rest with
         | "capacity", [] => if sz == 0 then showNat (2 ^ pw - 1) else showNat (listCapacityAfter sz l.length)
         | "codes", [] => showList showNat l
+        | "eq_alias", [] => showBool true   -- `Arc::ptr_eq` answers before any element is compared
         | "concat", [_] => match other with | some m => showList showNat (l ++ m) | none => "bad-op"
         | "eq", [_] => match other with | some m => showBool (l == m) | none => "bad-op"
         | "ne", [_] => match other with | some m => showBool (l != m) | none => "bad-op"
